@@ -253,6 +253,18 @@ class Realizer:
             if o.post_init:
                 empty = False
                 L.append(o.post_init)
+            for m in o.methods:
+                empty = False
+                args = []
+                if m.alias:
+                    args.append(repr(m.alias))
+                if m.order:
+                    args.append(f"order={m.order}")
+                L.append(f"    @serialized({', '.join(args)})" if args else "    @serialized")
+                if m.prop:
+                    L.append("    @property")
+                L.append(f"    def {m.name}(self) -> {self.expr(m.ret)}:")
+                L.append(f"        return {m.body}")
             if o.extra_src:
                 empty = False
                 L.append(o.extra_src)
